@@ -93,7 +93,13 @@ def include_programs(rnd):
     mid = "probe(132, 0)\ninclude 'sub/leaf.bare'\nprobe(133, 0)\nfunction midf():\n    probe(134, 0)\nendfunction\n"
     top = FUNCS % {'k': 2} + "probe(135, 0)\ninclude 'lib/mid.bare'\nprobe(136, 0)\nmidf()\ninclude 'lib/sub/leaf.bare'\nprobe(137, 0)\n"
     vfs = {'lib/mid.bare': mid, 'lib/sub/leaf.bare': leaf}
-    return [(top, vfs)]
+    # a partial (and a plain function value) created INSIDE an include and called from the including script and from a
+    # library callback: its statements count against the same budget
+    part = ("function incf(n, x):\n    probe(140, n)\n    t = n + x\n    probe(141, t)\n    return t > 3\nendfunction\n"
+            "pinc = systemPartial(incf, 2)\nfval = incf\nprobe(142, pinc(0))\n")
+    top2 = ("probe(143, 0)\ninclude 'lib/part.bare'\nprobe(144, pinc(1))\nprobe(145, pinc(5))\nprobe(146, fval(1, 1))\n"
+            "arr = arrayNew(0, 1, 2, 3)\nprobe(147, arrayIndexOf(arr, pinc))\nprobe(148, arrayLastIndexOf(arr, systemPartial(pinc)))\nprobe(149, 0)\n")
+    return [(top, vfs), (top2, {'lib/part.bare': part})]
 
 
 def parse(text):
